@@ -41,7 +41,11 @@ TRUSTED = ["matplotlib (Agg): that artists hold the arrays they were given and r
            "point counts as drawn (it is in the artist's data), its bar as absent",
            "xarray selection/broadcast primitives (modelled as index arithmetic, validated by the diff only)",
            "decoding of drawn floats by exact bit pattern through an injective table of the dataset's values"]
-ASSUMPTIONS = ["dataset values are pairwise distinct finite floats or NaN/+-inf, coordinates are unique per dimension"]
+ASSUMPTIONS = ["dataset values are pairwise distinct finite floats or NaN/+-inf, coordinates are unique per dimension",
+               "translated gen_xy (anchors_plotsrc): the jitter options are off (`self.xjitter` / `self.yjitter` false), "
+               "`check_excess_dims` is validation only (dropped from the translation of prepare_z_vals), the dataset "
+               "operations are abstract (`Gen.PlotOps`; the refinement instantiates them with the model's View: positional and "
+               "`.loc` selection give the same slice because coordinates are unique)"]
 PARTIAL = {
     'C17 (whole property)': "partial claim: slice selection, C-order flattening, finite mask, carried variables, "
                             "histogram value selection, heat-map cell placement, panel placement/titles, which quantity "
